@@ -16,6 +16,11 @@ Property theorems (and the lemmas they need). Model: `Model/Rule.lean`.
 * `C08_full_partial`, `C08_fixed_end_to_end` — the repaired surgery on every unambiguous program with ≤ 4
   branches; the unbounded `C08_full` is stated in a comment, not proved.
 * `C08_cex_third_alternative`, `C08_cex_nested_refinement`, `C08_cex_next_same_binding` — the three findings.
+* `C08_two_variables_conservative`, `C08_spec_conservative` — the two-variable evaluator `evalT2` / specification
+  `spec2` (a branch may introduce a second variable `y`; `concluded_before` keyed by the projection of the binding
+  onto the conclusions' variables, with `SeenSet`'s coverage test) coincide with `evalT` / `fire` on every payload
+  that never mentions `y`: the theorems here speak about the general model on that fragment. Programs that do
+  mention `y` are covered by the correspondence only.
 * `C08_authoring` — multi-step authoring, unbounded: closing the `with rule:` block and opening `with rule:` again on
   the same rule, anywhere between the top-level statements, leaves the very same store behind (the conditions root
   is cached). `C08_build_partial_authored`, `C08_full_partial_authored`, `C08_today_end_to_end_authored` — the
@@ -1671,5 +1676,266 @@ the base conclusion) is an instance — `oneBlock` of it is `authoredAt 1` of th
 example : (Authored.mk 0 [.kid .ref (.mk 1 .nil), .reenter, .add]).oneBlock.items.length = 2 ∧
     buildsWellFormedFor Quirks.today (Authored.mk 0 [.kid .ref (.mk 1 .nil), .reenter, .add])
       (.mk 0 (.cons .ref (.mk 1 .nil) .nil)) = true := by decide +kernel
+
+/-! ## Two variables: a conservative extension -/
+
+def liftO (o : Out) : Out2 := ⟨(o.x, none), o.isF, o.concl⟩
+def liftS (s : Seen) : Seen2 := s.map fun e => (e.1, e.2.1, (e.2.2.1, none), e.2.2.2)
+
+/-- the payload never relates `x` and `y` -/
+def Rel2.yFree (r2 : Rel2) : Prop := ∀ b, r2.rel b = none
+
+theorem any_liftS (s : Seen) (p : Nat × Bool × Bnd × List Nat → Bool) :
+    (liftS s).any p = s.any fun e => p (e.1, e.2.1, (e.2.2.1, none), e.2.2.2) := by
+  simp [liftS, List.any_map, Function.comp_def]
+
+theorem key_match (a id : Nat) (b tr : Bool) (c' x : Nat) (k c : List Nat) :
+    (a == id && b == tr && k == c && (c' == x && true)) = ((id, tr, x, c) == (a, b, c', k)) := by
+  rw [Bool.eq_iff_iff]
+  simp only [Bool.and_eq_true, beq_iff_eq, Bool.and_true, Prod.mk.injEq]
+  constructor
+  · rintro ⟨⟨⟨h1, h2⟩, h3⟩, h4⟩; exact ⟨h1.symm, h2.symm, h4.symm, h3.symm⟩
+  · rintro ⟨h1, h2, h3, h4⟩; exact ⟨⟨⟨h1.symm, h2.symm⟩, h4.symm⟩, h3.symm⟩
+
+theorem update2_lift (d : Dedup) (id x : Nat) (f : Bool) (c : List Nat) (s : Seen) :
+    update2 d id (x, none) f c (liftS s) = ((update d id x f c s).1, liftS (update d id x f c s).2) := by
+  unfold update2 update
+  by_cases hc : c.isEmpty
+  · simp [hc]
+  · simp only [hc, Bool.false_eq_true, ↓reduceIte]
+    have hk : keyOf c (x, none) = (x, none) := by simp [keyOf]
+    cases d with
+    | off => simp
+    | byBinding =>
+      simp only [hk, any_liftS, covers]
+      have : (s.any fun e => e.1 == id && e.2.1 == !f && e.2.2.2 == [] && (e.2.2.1 == x && true)) =
+          s.contains (id, !f, x, []) := by
+        induction s with
+        | nil => rfl
+        | cons e es ih =>
+          simp only [List.any_cons, List.contains_cons, ih]
+          congr 1
+          obtain ⟨a, b, c', k⟩ := e
+          exact key_match a id b (!f) c' x k []
+      rw [this]
+      split <;> simp [liftS]
+    | byConclusion =>
+      simp only [hk, any_liftS, covers]
+      have : (s.any fun e => e.1 == id && e.2.1 == !f && e.2.2.2 == c && (e.2.2.1 == x && true)) =
+          s.contains (id, !f, x, c) := by
+        induction s with
+        | nil => rfl
+        | cons e es ih =>
+          simp only [List.any_cons, List.contains_cons, ih]
+          congr 1
+          obtain ⟨a, b, c', k⟩ := e
+          exact key_match a id b (!f) c' x k c
+      rw [this]
+      split <;> simp [liftS]
+
+
+theorem mapSeen2_lift {α β} (g : α → β) (f : α → Seen → List Out × Seen) (f2 : β → Seen2 → List Out2 × Seen2)
+    (h : ∀ a s, f2 (g a) (liftS s) = ((f a s).1.map liftO, liftS (f a s).2)) :
+    ∀ (l : List α) (s : Seen),
+      mapSeen2 f2 (l.map g) (liftS s) = ((mapSeen f l s).1.map liftO, liftS (mapSeen f l s).2) := by
+  intro l
+  induction l with
+  | nil => intro s; rfl
+  | cons a as ih =>
+    intro s
+    simp only [List.map_cons, mapSeen2, mapSeen, h a s, ih (f a s).2, List.map_append]
+
+theorem liftO_filter (rs : List Out) :
+    (rs.map liftO).filter (fun o => !o.isF) = (rs.filter fun o => !o.isF).map liftO := by
+  induction rs with
+  | nil => rfl
+  | cons r rs ih => simp only [List.map_cons, List.filter_cons, liftO, ih]; split <;> rfl
+
+/-- **the two-variable evaluator restricted to payloads that never mention `y` is the one-variable evaluator** (so
+every theorem about `evalT` speaks about `evalT2` on such payloads) -/
+theorem evalT2_yFree (pay : Payload) (r2 : Rel2) (d : Dedup) (dom : List Nat) (hy : r2.yFree) (t : Sel) :
+    ∀ (src : Option Nat) (s : Seen),
+      evalT2 pay r2 d true dom t (src.map fun x => (x, none)) (liftS s) =
+        ((evalT pay d dom t src s).1.map liftO, liftS (evalT pay d dom t src s).2) := by
+  induction t with
+  | leaf id blk cs =>
+    intro src s
+    simp only [evalT2, evalT, leafOuts2, leafOuts, leafBnds, leafHolds, hy blk]
+    cases src <;> simp [liftO, Function.comp_def]
+  | node k id l r ihl ihr =>
+    intro src s
+    have hr : ∀ (x : Nat) (s : Seen), evalT2 pay r2 d true dom r (some (x, none)) (liftS s) =
+        ((evalT pay d dom r (some x) s).1.map liftO, liftS (evalT pay d dom r (some x) s).2) :=
+      fun x s => ihr (some x) s
+    cases k
+    · simp only [evalT2, evalT, ihl src s]
+      apply mapSeen2_lift
+      intro lv s
+      simp only [liftO]
+      by_cases h1 : lv.isF = true
+      · simp [h1, liftO]
+      · simp only [h1, Bool.false_eq_true, ↓reduceIte, hr]
+        have hf := liftO_filter (evalT pay d dom r (some lv.x) s).1
+        try simp only [liftO] at hf
+        rw [hf]
+        by_cases h2 : ((evalT pay d dom r (some lv.x) s).1.filter fun o => !o.isF).isEmpty = true
+        · simp [h2, update2_lift, liftO]
+        · simp only [List.isEmpty_map, h2, Bool.false_eq_true, ↓reduceIte]
+          apply mapSeen2_lift
+          intro rv s
+          simp [update2_lift, liftO]
+    · simp only [evalT2, evalT, ihl src s]
+      apply mapSeen2_lift
+      intro lv s
+      simp only [liftO]
+      by_cases h1 : lv.isF = true
+      · simp only [h1, ↓reduceIte, hr]
+        apply mapSeen2_lift
+        intro rv s
+        by_cases h2 : rv.isF = true
+        · simp [h2, liftO]
+        · simp [h2, liftO, update2_lift]
+      · simp [h1, update2_lift, liftO]
+    · simp only [evalT2, evalT, ihl src s]
+      have e1 := mapSeen2_lift liftO
+        (fun (lv : Out) s =>
+          if lv.isF then
+            let (rs, s) := evalT pay d dom r (some lv.x) s
+            mapSeen (fun (rv : Out) s =>
+              let (c, s) := update d id rv.x rv.isF rv.concl s
+              ([⟨rv.x, rv.isF, c⟩], s)) rs s
+          else
+            let (c, s) := update d id lv.x false lv.concl s
+            ([⟨lv.x, false, c⟩], s))
+        (fun (lv : Out2) s =>
+          if lv.isF && !true then ([⟨lv.b, true, []⟩], s)
+          else if lv.isF then
+            let (rs, s) := evalT2 pay r2 d true dom r (some lv.b) s
+            mapSeen2 (fun (rv : Out2) s =>
+              let (c, s) := update2 d id rv.b rv.isF rv.concl s
+              ([⟨rv.b, rv.isF, c⟩], s)) rs s
+          else
+            let (c, s) := update2 d id lv.b false lv.concl s
+            ([⟨lv.b, false, c⟩], s))
+        (by
+          intro lv s
+          simp only [liftO, Bool.not_true, Bool.and_false, Bool.false_eq_true, ↓reduceIte]
+          by_cases h1 : lv.isF = true
+          · simp only [h1, ↓reduceIte, hr]
+            apply mapSeen2_lift
+            intro rv s
+            simp [liftO, update2_lift]
+          · simp [h1, update2_lift, liftO])
+        (evalT pay d dom l src s).1 (evalT pay d dom l src s).2
+      simp only [e1, ihr]
+      have e2 := mapSeen2_lift liftO
+        (fun (rv : Out) s =>
+          let (c, s) := update d id rv.x rv.isF rv.concl s
+          ([⟨rv.x, rv.isF, c⟩], s))
+        (fun (rv : Out2) s =>
+          let (c, s) := update2 d id rv.b rv.isF rv.concl s
+          ([⟨rv.b, rv.isF, c⟩], s))
+        (by intro rv s; simp [liftO, update2_lift])
+      simp only [e2, List.map_append]
+
+
+theorem topOuts2_lift (os : List Out) :
+    topOuts2 (os.map liftO) = (topOuts os).map fun r => (r.1, ((r.2, none) : Bnd)) := by
+  induction os with
+  | nil => rfl
+  | cons o os ih =>
+    simp only [topOuts2, topOuts] at ih
+    by_cases h : (o.isF || o.concl.isEmpty) = true
+    · simp only [List.map_cons, topOuts2, topOuts, List.filterMap_cons, liftO, h, ↓reduceIte]
+      exact ih
+    · simp only [List.map_cons, topOuts2, topOuts, List.filterMap_cons, liftO, h, ↓reduceIte, List.map_cons]
+      exact congrArg _ ih
+
+/-- **C08_two_variables_conservative.** On a payload that never relates `x` and `y`, the two-variable evaluator
+(today's `Union` fall-through) returns exactly the results of the one-variable evaluator `evalT` the theorems
+above are about — for every tree, keying, domain. -/
+theorem C08_two_variables_conservative (pay : Payload) (r2 : Rel2) (d : Dedup) (dom : List Nat)
+    (hy : r2.yFree) (t : Sel) :
+    topOuts2 (evalT2 pay r2 d true dom t none []).1 =
+      (topOuts (evalT pay d dom t none []).1).map fun r => (r.1, ((r.2, none) : Bnd)) := by
+  have h := evalT2_yFree pay r2 d dom hy t none []
+  simp only [Option.map_none, liftS, List.map_nil] at h
+  rw [h]
+  exact topOuts2_lift _
+
+/-! the specification over two variables restricted to such payloads is `fire` -/
+
+def liftR (x : Nat) (cs : List Nat) : List (Nat × Bnd) := cs.map fun c => (c, ((x, none) : Bnd))
+
+theorem holdsExt_yFree (pay : Payload) (r2 : Rel2) (hy : r2.yFree) (blk x : Nat) :
+    holdsExt pay r2 blk (x, none) = if (pay blk).cond.contains x then [(x, none)] else [] := by
+  by_cases h : x ∈ (pay blk).cond <;> simp [holdsExt, leafBnds, leafHolds, hy blk, h]
+
+theorem combine2_lift (x : Nat) (ch : Option (List Nat)) (ns : List (List Nat)) :
+    combine2 (ch.map (liftR x)) (ns.map (liftR x)) = (combine ch ns).map (liftR x) := by
+  have e : liftR x = List.map fun c => (c, ((x, none) : Bnd)) := rfl
+  cases ch <;> cases ns <;> simp [combine2, combine, e, List.map_flatten]
+
+structure SpecSem (pay : Payload) (r2 : Rel2) (x : Nat) (r : Rule) : Prop where
+  chain : r.chain2 pay r2 (x, none) = (r.chain pay x).map (liftR x)
+  nexts : r.nextsOf2 pay r2 (x, none) = (r.nextsOf pay x).map (liftR x)
+  group : r.group2 pay r2 (x, none) = (r.group pay x).map (liftR x)
+
+structure SpecsSem (pay : Payload) (r2 : Rel2) (x : Nat) (rs : Rules) : Prop where
+  chainFirst : rs.chainFirst2 pay r2 (x, none) = (rs.chainFirst pay x).map (liftR x)
+  firstFiring : rs.firstFiring2 pay r2 (x, none) = (rs.firstFiring pay x).map (liftR x)
+  nextsIn : rs.nextsIn2 pay r2 (x, none) = (rs.nextsIn pay x).map (liftR x)
+  nextGroups : rs.nextGroups2 pay r2 (x, none) = (rs.nextGroups pay x).map (liftR x)
+
+mutual
+theorem Rule.spec2_yFree (pay : Payload) (r2 : Rel2) (hy : r2.yFree) (x : Nat) :
+    ∀ r : Rule, SpecSem pay r2 x r
+  | .mk b refs alts nexts => by
+    have hr := Rules.spec2_yFree pay r2 hy x refs
+    have ha := Rules.spec2_yFree pay r2 hy x alts
+    have hn := Rules.spec2_yFree pay r2 hy x nexts
+    have hch : (let exts := holdsExt pay r2 b (x, none)
+        if exts.isEmpty then alts.chainFirst2 pay r2 (x, none)
+        else some (exts.flatMap fun b' =>
+          (refs.firstFiring2 pay r2 b').getD ((pay b).concl.map fun c => (c, b')))) =
+        (if (pay b).cond.contains x then some ((refs.firstFiring pay x).getD (pay b).concl)
+          else alts.chainFirst pay x).map (liftR x) := by
+      simp only [holdsExt_yFree pay r2 hy]
+      by_cases hc : x ∈ (pay b).cond
+      · simp only [List.contains_iff_mem, hc, decide_true, ↓reduceIte, List.isEmpty_cons, Bool.false_eq_true, List.flatMap_cons, List.flatMap_nil,
+          List.append_nil, hr.firstFiring, Option.map_some]
+        cases refs.firstFiring pay x <;> simp [liftR]
+      · simp [hc, ha.chainFirst]
+    refine ⟨?_, ?_, ?_⟩
+    · simp only [Rule.chain2, Rule.chain]; exact hch
+    · simp only [Rule.nextsOf2, Rule.nextsOf, ha.nextsIn, hn.nextGroups, List.map_append]
+    · simp only [Rule.group2, Rule.group]
+      rw [hch, ha.nextsIn, hn.nextGroups, ← List.map_append, combine2_lift]
+theorem Rules.spec2_yFree (pay : Payload) (r2 : Rel2) (hy : r2.yFree) (x : Nat) :
+    ∀ rs : Rules, SpecsSem pay r2 x rs
+  | .nil => by
+    refine ⟨?_, ?_, ?_, ?_⟩ <;>
+      simp [Rules.chainFirst2, Rules.chainFirst, Rules.firstFiring2, Rules.firstFiring, Rules.nextsIn2,
+        Rules.nextsIn, Rules.nextGroups2, Rules.nextGroups]
+  | .cons r rs => by
+    have h1 := Rule.spec2_yFree pay r2 hy x r
+    have h2 := Rules.spec2_yFree pay r2 hy x rs
+    refine ⟨?_, ?_, ?_, ?_⟩
+    · simp only [Rules.chainFirst2, Rules.chainFirst, h1.chain, h2.chainFirst]
+      cases r.chain pay x <;> simp
+    · simp only [Rules.firstFiring2, Rules.firstFiring, h1.group, h2.firstFiring]
+      cases r.group pay x <;> simp
+    · simp only [Rules.nextsIn2, Rules.nextsIn, h1.nexts, h2.nextsIn, List.map_append]
+    · simp only [Rules.nextGroups2, Rules.nextGroups, h1.group, h2.nextGroups, List.map_append]
+      cases r.group pay x <;> simp
+end
+
+/-- **C08_spec_conservative.** The two-variable specification on a payload without `y` is `fire`. -/
+theorem C08_spec_conservative (pay : Payload) (r2 : Rel2) (hy : r2.yFree) (p : Prog) (dom : List Nat) :
+    spec2 pay r2 p dom = (spec pay p dom).map fun r => (r.1, ((r.2, none) : Bnd)) := by
+  simp only [spec2, spec, specObs, fire, (Rule.spec2_yFree pay r2 hy _ p.toRule).group, List.map_flatMap]
+  apply flatMap_congr'
+  intro x _
+  cases p.toRule.group pay x <;> simp [liftR, rowOf, keyOf, classUsesY, Function.comp_def]
 
 end KrroodVerif.Rdr
